@@ -192,8 +192,7 @@ def run(pid, tier, seed, work, log, replay=None):
     # ---- (c) run on the real code + validate
     tb = V.build_harness(work)
     traces, crashed = V.run_scenarios(tb, scen + gc2, work)
-    if crashed:
-        raise V.Inconclusive('harness process died: %s' % crashed[0][2][-800:])
+    res['violations'] += V.crash_verdicts(crashed, pid)
     if gc2:
         import fam_conc
         bad2, n2 = fam_conc.check_gc2({s['id']: traces.get(s['id'], []) for s in gc2})
